@@ -85,7 +85,7 @@ TESTS = {
     "C10": ["iora_test_ring_buffer", "iora_test_blocking_queue"], "C11": ["iora_test_state"],
     "C12": ["iora_test_kvstore"], "C13": ["iora_test_json_parser"], "C16": ["iora_test_http"],
     "C17": ["iora_test_http", "iora_test_http_client_retry", "iora_test_http_client_lease",
-            "iora_test_http_client_response_framing"], "C20": ["test_assets", "test_embed_assets"],
+            "iora_test_http_client_response_framing"], "C20": ["test_assets"],
 }
 
 if __name__ == "__main__":
